@@ -868,6 +868,24 @@ func (r *Run) step(fr *frame, in ssa.Instruction) {
 	case *ssa.FieldAddr:
 		p, ok := r.val(fr, x.X).(VPtr)
 		if !ok {
+			// a pointer the world names only symbolically: the struct it points to is a named object whose
+			// fields are read lazily (one object per name within a run)
+			switch sv := r.val(fr, x.X).(type) {
+			case VSym, VOpq:
+				nm := "*" + render(sv)
+				var so *Obj
+				for _, o := range r.objs {
+					if o.Name == nm {
+						so = o
+					}
+				}
+				if so == nil {
+					so = r.NewObj(nm, false)
+				}
+				p, ok = VPtr{so, ""}, true
+			}
+		}
+		if !ok {
 			r.fail("field address of non-pointer %s", render(r.val(fr, x.X)))
 		}
 		st := x.X.Type().Underlying().(*types.Pointer).Elem().Underlying().(*types.Struct)
